@@ -148,8 +148,11 @@ func TestC25(t *testing.T) {
 				time.Sleep(e.at - time.Since(t0))
 				synctest.Wait()
 				switch e.kind {
-				case "ack", "dupack":
+				case "ack":
 					eng.NotifyAcks([]int64{id})
+				case "dupack":
+					// batched msgs_ack: ids nobody waits for before and after ours
+					eng.NotifyAcks([]int64{id - 4, id, id + 4})
 				case "result":
 					_ = eng.NotifyResult(id, &bin.Buffer{Buf: resultPayload(id, true)})
 				case "cancel":
